@@ -175,6 +175,11 @@ fn parse_ifdata_item(
             let mut seqitems = Vec::new();
             let mut checkpoint = parser.get_tokenpos();
             while let Ok(item) = parse_ifdata_item(parser, context, seqspec) {
+                if parser.get_tokenpos() == checkpoint {
+                    // the sequence item (e.g. a taggedstruct without any of its optional items) matched
+                    // without consuming any input: it would match again at the same position forever
+                    break;
+                }
                 seqitems.push(item);
                 checkpoint = parser.get_tokenpos();
             }
